@@ -65,12 +65,22 @@ FUNCTIONS = [
      [("node", "node")], "opt3t"),
     ("rules/variable_multiply.py", "VariableMultiplyRule", "can_apply_to", "VariableMultiplyRule_can_apply_to",
      [("node", "node")], "bool"),
+    ("rules/balanced_move.py", "BalancedMoveRule", "has_add_siblings", "BalancedMoveRule_has_add_siblings",
+     [("node", "node")], "bool"),
+    ("rules/balanced_move.py", "BalancedMoveRule", "get_type", "BalancedMoveRule_get_type",
+     [("node", "node")], "optstr"),
+    ("rules/balanced_move.py", "BalancedMoveRule", "can_apply_to", "BalancedMoveRule_can_apply_to",
+     [("node", "node")], "bool"),
 ]
+# names imported from mathy_core.tree
+GLOBAL_CONSTS = {"LEFT": "left", "RIGHT": "right"}
 
 # self.<method>(node) inside a translated method of the same class
 SELF_CALLS = {
     ("DistributiveFactorOutRule", "get_type"): ("DistributiveFactorOutRule_get_type", "opt3t"),
     ("VariableMultiplyRule", "get_type"): ("VariableMultiplyRule_get_type", "opt3t"),
+    ("BalancedMoveRule", "get_type"): ("BalancedMoveRule_get_type", "optstr"),
+    ("BalancedMoveRule", "has_add_siblings"): ("BalancedMoveRule_has_add_siblings", "bool"),
 }
 # externals: functions of util.py that are NOT translated (hand-written model, see Model/PyRt.lean)
 EXTERNALS = {"get_term_ex": ("Ref.get_term_ex", ["node"], "term"),
@@ -83,6 +93,8 @@ TYPED_ATTRS = {
 }
 
 METHOD_CALLS = {  # method name -> (lean function taking the receiver, result type)
+    "get_root": ("Ref.get_root", "node"),
+    "get_root_side": ("Ref.get_root_side", "str"),
     "get_child": ("Ref.get_child", "node"),
     "get_sibling": ("Ref.get_sibling", "node"),
     "get_priority": ("BinaryExpression_get_priority", "int"),
@@ -95,8 +107,10 @@ def lean_str(s):
 
 
 class FnTranslator:
-    def __init__(self, consts, params, ret, cls=None):
+    def __init__(self, consts, params, ret, cls=None, fn_name="f"):
         self.cls = cls
+        self.fn_name = fn_name
+        self.aux = []
         self.consts = consts          # module-level NAME -> python constant
         self.ret = ret
         self.env = {}                 # local python name -> (lean name, type)
@@ -125,6 +139,8 @@ class FnTranslator:
                 return self.env[e.id]
             if e.id in self.consts:
                 return self.expr(ast.Constant(self.consts[e.id]))
+            if e.id in GLOBAL_CONSTS:
+                return self.expr(ast.Constant(GLOBAL_CONSTS[e.id]))
             raise Untranslatable(f"name {e.id}")
         if isinstance(e, ast.Attribute):
             dotted = self.dotted(e)
@@ -151,6 +167,13 @@ class FnTranslator:
         if isinstance(e, ast.BoolOp):
             op = " && " if isinstance(e.op, ast.And) else " || "
             return "(" + op.join(self.truth(v) for v in e.values) + ")", "bool"
+        if isinstance(e, ast.IfExp):
+            c = self.truth(e.test)
+            a, ta = self.expr(e.body)
+            b, tb = self.expr(e.orelse)
+            if ta != tb:
+                raise Untranslatable("conditional expression with branches of different types")
+            return f"(if {c} then {a} else {b})", ta
         if isinstance(e, ast.Compare):
             return self.compare(e)
         if isinstance(e, ast.Call):
@@ -185,10 +208,23 @@ class FnTranslator:
         if len(e.ops) != 1:
             raise Untranslatable("comparison chain")
         op, l, r = e.ops[0], e.left, e.comparators[0]
+        # len(x.find_type(C)) > 0 : some node of class C in the sub-tree of x
+        if (isinstance(op, ast.Gt) and isinstance(r, ast.Constant) and r.value == 0 and isinstance(l, ast.Call)
+                and isinstance(l.func, ast.Name) and l.func.id == "len" and len(l.args) == 1
+                and isinstance(l.args[0], ast.Call) and isinstance(l.args[0].func, ast.Attribute)
+                and l.args[0].func.attr == "find_type" and isinstance(l.args[0].args[0], ast.Name)
+                and l.args[0].args[0].id in CLASSES):
+            recv = self.expr(l.args[0].func.value)
+            if recv[1] != "node":
+                raise Untranslatable("find_type receiver")
+            return f"(Ref.anyOfType {recv[0]} .{l.args[0].args[0].id})", "bool"
         lc, lt = self.expr(l)
         rc, rt = self.expr(r)
         if isinstance(op, (ast.Is, ast.IsNot)):
-            if rt == "none" and lt in ("node", "num", "term", "optchar", "factres", "opt3t"):
+            if lt == "node" and rt == "node":
+                # object identity of two nodes of one tree = same position
+                return (f"({lc} == {rc})" if isinstance(op, ast.Is) else f"({lc} != {rc})"), "bool"
+            if rt == "none" and lt in ("node", "num", "term", "optchar", "factres", "opt3t", "optstr"):
                 return (f"(Option.isNone {lc})" if isinstance(op, ast.Is) else f"(Option.isSome {lc})"), "bool"
             if lt == "bool" and rt == "bool":
                 return (f"({lc} == {rc})" if isinstance(op, ast.Is) else f"({lc} != {rc})"), "bool"
@@ -300,6 +336,8 @@ class FnTranslator:
                 return "none"
             if ty == "str":
                 return f"(some {c})"
+            if ty == "optstr":
+                return c
         if r == "opt3":
             if ty == "none":
                 return "none"
@@ -374,6 +412,38 @@ class FnTranslator:
             body = self.block(rest, ind)
             self.env = saved
             return f"{pad}let {lean} := {c};\n{body}"
+        if isinstance(s, ast.While):
+            # `while cond: v = e` over one node-valued local that moves towards the root: a fuel-indexed
+            # recursive function, fuel = depth of the starting node + 1 (adequacy is part of the
+            # agreement proof, not assumed)
+            names = self.assigned(s.body)
+            if s.orelse or names is None or len(names) != 1 or names[0] not in self.env:
+                raise Untranslatable("while loop")
+            var = names[0]
+            old, oty = self.env[var]
+            if oty != "node":
+                raise Untranslatable("while loop over a non-node variable")
+            self.fresh += 1
+            loop = f"{self.fn_name}_loop{self.fresh}"
+            saved = dict(self.env)
+            self.env[var] = ("v", "node")
+            cond = self.truth(s.test)
+            st = s.body[0]
+            step, sty = self.expr(st.value)
+            self.env = saved
+            if sty != "node":
+                raise Untranslatable("while body")
+            free = sorted({lean for (lean, _t) in saved.values() if lean != old and
+                           (f" {lean})" in cond or f" {lean} " in cond or f" {lean})" in step)})
+            if free:
+                raise Untranslatable("while loop referring to other locals")
+            self.aux.append(f"def {loop} : Nat → Ref → Ref\n  | 0, v => v\n  | fuel + 1, v => if {cond} then {loop} fuel {step} else v\n")
+            self.fresh += 1
+            lean = f"{var}_{self.fresh}"
+            self.env[var] = (lean, "node")
+            body = self.block(rest, ind)
+            self.env = saved
+            return f"{pad}let {lean} := {loop} (Ref.depth {old} + 1) {old};\n{body}"
         if isinstance(s, ast.If):
             cond = self.truth(s.test)
             if self.always_returns(s.body):
@@ -463,8 +533,10 @@ def translate_all(repo=None):
             consts = module_consts(tree)
             if file == "expressions.py":
                 pass
-            tr = FnTranslator(consts, params, ret, cls)
+            tr = FnTranslator(consts, params, ret, cls, lean)
             body = tr.block(node.body, 1)
+            for a in tr.aux:
+                out.append(a)
             sig = " ".join(f"({tr.env[p][0]} : {TY_LEAN[t]})" for p, t in params)
             out.append(f"/-- `{file}`: `{(cls + '.') if cls else ''}{fn}` -/\ndef {lean} {sig} : {RET_LEAN[ret]} :=\n{body}\n")
         except (Untranslatable, OSError, SyntaxError) as e:
